@@ -1,5 +1,103 @@
-"""Seam audit (DESIGN.md 3.2): every use of a nondeterminism / I/O module inside cascade must be covered by a seam."""
+"""Seam audit (DESIGN.md 3.2): every use of a nondeterminism / I/O source inside /repo/src/cascade must be one the
+simulator replaces (or is known to be harmless).  An uncovered use (a refactor that starts calling time.monotonic()
+or opens a new kind of socket) stops the check with exit code 2 - never with a pass, never with a VIOLATION."""
+import ast
+import os
+import sys
+
+WATCHED = {"time", "socket", "threading", "multiprocessing", "subprocess", "os", "random", "uuid", "tempfile", "signal", "select",
+           "asyncio", "concurrent", "zmq", "atexit", "queue", "selectors", "secrets", "shutil", "pathlib", "mmap", "fcntl"}
+
+# module -> attribute -> how it is covered
+COVERED = {
+    "time": {"time_ns": "virtual clock", "time": "virtual clock", "sleep": "kernel sleep", "monotonic_ns": "virtual clock", "perf_counter_ns": "virtual clock",
+             "monotonic": "virtual clock", "perf_counter": "virtual clock"},
+    "socket": {"socket": "UDP fake", "AF_INET": "const", "SOCK_DGRAM": "const", "gethostname": "pure name lookup, constant per run", "getfqdn": "pure name lookup, constant per run"},
+    "threading": {"local": "thread-local (each simulated process is a thread)", "Lock": "SimLock in cascade.shm.dataset"},
+    "multiprocessing": {"get_context": "SimProcess", "shared_memory": "segment namespace fake", "shared_memory.SharedMemory": "segment namespace fake",
+                        "resource_tracker": "no-op", "resource_tracker.unregister": "no-op", "process": "type only", "process.BaseProcess": "type only",
+                        "Process": "benchmarks launcher only (re-written in the harness)"},
+    "subprocess": {"run": "fake (findmnt / uv never invoked with packages)", "Popen": "fake: records the command line", "CalledProcessError": "type"},
+    "os": {"environ": "per-process env shim", "getenv": "per-process env shim", "environ.get": "per-process env shim", "path": "pure", "getpid": "unused in simulated paths"},
+    "uuid": {"uuid4": "ids from the choice stream"},
+    "tempfile": {"TemporaryDirectory": "in-memory fs"},
+    "signal": {"signal": "no-op", "SIGINT": "const", "SIGTERM": "const"},
+    "concurrent": {"futures": "pool fake", "futures.ThreadPoolExecutor": "pool fake", "futures.wait": "kernel wait", "futures.ALL_COMPLETED": "const",
+                   "futures.FIRST_COMPLETED": "const", "futures.Executor": "type", "futures.Future": "type"},
+    "zmq": {"Context": "fake", "Socket": "fake", "Poller": "fake", "PUSH": "const", "PULL": "const", "REQ": "const", "REP": "const", "POLLIN": "const", "LINGER": "const"},
+    "atexit": {"register": "per-process exit handlers"},
+    "builtins": {"open:shm/disk.py": "in-memory fs (module attribute cascade.shm.disk.open)", "open:gateway/router.py": "in-memory fs (module attribute cascade.gateway.router.open)"},
+}
+# files whose code never runs inside a simulation (launchers, plotting, benchmarks): audited separately as "not simulated"
+NOT_SIMULATED = ("benchmarks/", "low/tracing.py")
 
 
-def run():
+def scan(root):
+    uses = {}   # (module, attr) -> [file:line]
+    for dp, dn, fn in os.walk(root):
+        for f in fn:
+            if not f.endswith(".py"):
+                continue
+            path = os.path.join(dp, f)
+            rel = os.path.relpath(path, root)
+            try:
+                tree = ast.parse(open(path).read())
+            except SyntaxError as e:
+                uses[("<syntax>", str(e))] = [rel]
+                continue
+            alias = {}     # local name -> module path
+            for node in ast.walk(tree):
+                if isinstance(node, ast.Import):
+                    for a in node.names:
+                        top = a.name.split(".")[0]
+                        if top in WATCHED:
+                            alias[a.asname or a.name.split(".")[0]] = a.name if a.asname else top
+                            if "." in a.name:
+                                uses.setdefault((top, a.name.split(".", 1)[1]), []).append(f"{rel}:{node.lineno}")
+                elif isinstance(node, ast.ImportFrom) and node.module:
+                    top = node.module.split(".")[0]
+                    if top in WATCHED:
+                        sub = node.module.split(".", 1)[1] + "." if "." in node.module else ""
+                        for a in node.names:
+                            uses.setdefault((top, sub + a.name), []).append(f"{rel}:{node.lineno}")
+            for node in ast.walk(tree):
+                if isinstance(node, ast.Call) and isinstance(node.func, ast.Name) and node.func.id == "open":
+                    uses.setdefault(("builtins", "open:" + rel), []).append(f"{rel}:{node.lineno}")
+            for node in ast.walk(tree):
+                if isinstance(node, ast.Attribute):
+                    chain = []
+                    n = node
+                    while isinstance(n, ast.Attribute):
+                        chain.append(n.attr)
+                        n = n.value
+                    if isinstance(n, ast.Name) and n.id in alias:
+                        full = alias[n.id].split(".") + list(reversed(chain))
+                        top = full[0]
+                        attr = ".".join(full[1:])
+                        uses.setdefault((top, attr), []).append(f"{rel}:{node.lineno}")
+    return uses
+
+
+def run(root=None, verbose=False):
+    root = root or os.path.join(os.environ.get("VERIF_REPO_SRC", "/repo/src"), "cascade")
+    uses = scan(root)
+    bad = []
+    for (mod, attr), where in sorted(uses.items()):
+        sim_where = [w for w in where if not any(w.startswith(p) for p in NOT_SIMULATED)]
+        if not sim_where:
+            continue
+        cov = COVERED.get(mod, {})
+        ok = attr in cov or any(attr.startswith(k + ".") for k in cov) or any(k.startswith(attr + ".") for k in cov) or attr == ""
+        if verbose:
+            print(("ok  " if ok else "BAD ") + f"{mod}.{attr}: {cov.get(attr, '')} {sim_where[:3]}")
+        if not ok:
+            bad.append((mod, attr, sim_where[:3]))
+    if bad:
+        for mod, attr, where in bad:
+            print(f"HARNESS-ERROR unsimulated seam {mod}.{attr} used at {where}")
+        return 2
     return 0
+
+
+if __name__ == "__main__":
+    sys.exit(run(verbose=True))
